@@ -3,15 +3,22 @@ import random, warnings
 from .. import core, gen, ref
 from . import cu
 
-MODULES = ['DsdVerif.Props.C20']
-GEN_FILES = ['LegacyIupac', 'IupacTables', 'LegacyWrappers']
+MODULES = ['DsdVerif.Props.C20', 'DsdVerif.Props.PyLegacy']
+GEN_FILES = ['LegacyIupac', 'IupacTables', 'LegacyWrappers', 'PyLegacy', 'PyFuncs']
 THEOREM_NAMES = ['legacy_iupac_agree_dna', 'legacy_iupac_agree_rna', 'legacy_wobble_total']
 THEOREMS = ['Dsd.C20.' + t for t in THEOREM_NAMES] + ['Dsd.C20L.' + t for t in ('legacy_canon_eq', 'legacy_rotations_spec', 'legacy_dup_iff')] + \
     ['Dsd.C20.legacy_wrappers_delegate', 'Dsd.C20F.legacy_rotate_once_eq', 'Dsd.C20F.legacy_construct_eq',
      'Dsd.C20F.legacy_refused_leaves_nothing', 'Dsd.C20F.legacy_full_canon_eq', 'Dsd.C20F.Findings.swapped_writes_leak',
      'Dsd.C20V.legacy_kernel_string_eq', 'Dsd.C20V.legacy_pair_table_eq', 'Dsd.C20V.legacy_is_connected_eq', 'Dsd.C20V.legacy_exterior_eq',
      'Dsd.C20V.legacy_enclosed_eq', 'Dsd.C20V.legacy_get_paired_loc_eq', 'Dsd.C20V.legacy_get_loop_index_eq',
-     'Dsd.C20V.legacy_rotate_pairtable_loc_eq', 'Dsd.C20V.legacy_views_registered', 'Dsd.C20V.legacy_views_after_rotate_once']
+     'Dsd.C20V.legacy_rotate_pairtable_loc_eq', 'Dsd.C20V.legacy_views_registered', 'Dsd.C20V.legacy_views_after_rotate_once'] + \
+    ['Dsd.PyLegacy.' + t for t in (
+        # the methods of the legacy DSD_Complex as written in the source (translator/pylegacy.py -> Gen/PyLegacy.lean, regenerated on every run)
+        # equal the statement-level model Model/LegacyFull in every object state: result, state afterwards and error kind
+        'py_rotate_once_eq', 'py_size_eq', 'py_strand_length_eq', 'py_sequence_eq', 'py_structure_eq', 'py_lol_sequence_eq', 'py_get_domain_eq',
+        'py_pair_table_eq', 'py_get_paired_loc_eq', 'py_loop_index_eq', 'py_get_loop_index_eq', 'py_is_connected_eq', 'py_ptOk_run',
+        'py_loop_index_needs_ptOk', 'py_legacy_rotate_once_obj', 'py_legacy_rotate_once_eq_current', 'py_legacy_rotate_once_raises',
+        'py_strand_length_after_rotate_once')]
 ASSUMPTIONS = [
     'the legacy SequenceConstraint tables are transcribed from the dictionaries inside its methods (Gen/LegacyIupac.lean, evaluated with '
     'T -> T and T -> U) and compared with the current tables by kernel-decided theorems',
@@ -281,6 +288,9 @@ def run(res, proof):
     # no model stream here: the utilities behind both APIs are covered by the C06-C09 correspondence
     res.streams['legacy-vs-current (real code)'] = res.evaluations
     res.traces = res.evaluations
+    # the legacy methods as translated from the working tree (Gen/PyLegacy.lean) against the real legacy objects
+    from .pylegacy_stream import source_derived_pylegacy
+    source_derived_pylegacy(res, proof)
     res.sample({'seq': 'a b + a', 'sst': '(.+)'})
 
 
